@@ -163,7 +163,8 @@ type framer struct {
 }
 
 func framingChildMain() {
-	debug.SetGCPercent(-1) // the allocation monitor needs TotalAlloc to be the only thing that moves
+	debug.SetGCPercent(-1) // collections only at points chosen below, never inside a measured window
+	runtime.GOMAXPROCS(1)  // one goroutine does everything; ReadMemStats stops the world twice per call
 	c := vf.Start("C18", "exploration")
 	dir := os.Getenv("C18_DIR")
 	f := &framer{c: c, r: newRec(), limit: p2pcommon.MaxPayloadLength, pend: filepath.Join(dir, "pending.json")}
